@@ -134,8 +134,11 @@ class C03(FCheck):
         # preemption and long holds (DESIGN 2.7)
         if case.get("alias") and item.get("extra_sched") and not item.get("only"):
             r = random.Random(item["pick_seed"] ^ 0xc03)
-            for j in range(item["extra_sched"]):
-                sp = gen.sched_plan(r, ustep=1.0)
+            same_name = case.get("alias") == "same-name-link-to-source"
+            for j in range(item["extra_sched"] * (30 if same_name else 1)):
+                # (the same-name case races at system-call granularity - a link made between another thread's stat and open - and
+                # is hit by roughly one schedule in a hundred: many cheap schedules, few of them stepped)
+                sp = gen.sched_plan(r, ustep=0.2 if same_name else 1.0)
                 sp["ustep_budget"] = 200
                 if "ustep_hold" in sp:
                     sp["ustep_hold"] = r.choice([8, 40, 400])
